@@ -1,11 +1,11 @@
 """C15 -- a parser's result is independent of its history; preloaded grammars are transparent (pure differential inside the executor)."""
-import base64
+import base64, glob, os
 from hypothesis import strategies as st
-import xv
+import xv, fuzzlane
 from driver import hyp_run, PropertyFailure
 
 ID = 'C15'
-HARNESS = {'asan': ['xvexec']}
+HARNESS = {'asan': ['xvexec', 'fz_reuse']}
 RULE = ('histories of 4-16 operations on ONE parser object (SAXParser, SAX2XMLReader, XercesDOMParser or DOMLSParser): parse of a document from a pool built to '
         'collide (same element / ID / entity / namespace names with different DTDs and schemas; valid, invalid, malformed at different depths, XML 1.1, UTF-16, '
         'standalone), progressive parse abandoned after k steps + parseReset, handler exception at the k-th callback, feature changes (scanner, namespaces, '
@@ -17,7 +17,8 @@ RULE = ('histories of 4-16 operations on ONE parser object (SAXParser, SAX2XMLRe
         'subset + ignoreCachedDTD, or a schema referenced by (noNamespace)schemaLocation) mixing loadGrammar(toCache), cacheGrammarFromParse, useCachedGrammarInParse, '
         'pool resets and failed parses; every `tparse` compares the parse on the history parser (cache in use) with a fresh parser that has nothing cached and reads '
         'the grammar inline: identical verdicts, positions, content, defaulted attributes and ignorable-whitespace classification (declaration events excluded); '
-        'non-trivial = a grammar was in the cache at the compared parse.')
+        'non-trivial = a grammar was in the cache at the compared parse.  lane F (coverage-guided, harness/fz_reuse): libFuzzer mutates two byte strings A and B, API, scanner '
+        'and feature bits; the in-target oracle compares parse(B) on the parser that has just parsed A with parse(B) on a fresh parser (no caching features, PSVI off); counts executions.')
 # known finding C15-psvi-null-xsmodel (see known_findings.json): with PSVI on, a re-used parser reports other type information than a fresh one (and parsing
 # against a pool whose XSModel already exists calls getXSObject through a stale XSModel); psvi=1 is therefore not generated here (class excluded in FEATS below)
 ASSUMPTIONS = ['persistent state is what the API documents: the feature/property map and the grammars cached through loadGrammar(toCache=true) since the last pool reset',
@@ -187,8 +188,29 @@ def worker(ctx):
         S.sample({'lane': 'T', 'api': case['api'], 'feat': case['feat'], 'ops': case['ops'][:8]}, limit=3)
         if not ok: raise PropertyFailure(case, detail)
     hyp_run(ctx, gen_tcase(), propT, max(20, ctx.budget // 3), batches=2, seed_salt=11)
+    if os.environ.get('VERIF_C15_NOFUZZ') != '1':
+        fuzzlane.run_lane(ctx, 'fz_reuse', lambda dest: write_reuse_seeds(dest, ctx.worker), FUZZ_RUNS[ctx.tier], FUZZ_SAFETY_S[ctx.tier], 'laneF', 'F')
+
+FUZZ_RUNS = {'quick': 1500, 'thorough': 80000}
+FUZZ_SAFETY_S = {'quick': 200, 'thorough': 2400}
+FSEP = b'\n%%%%\n'
+def write_reuse_seeds(dest, worker):
+    """pairs (A, B) from the committed parse corpus plus hand-written state carriers (XML 1.1, DTD with entities/IDs/defaults, malformed, namespaces)"""
+    src = sorted(glob.glob(os.path.join(xv.VERIF, 'corpus', 'fz_parse', '*')))
+    docs = [open(f, 'rb').read().split(FSEP)[0] for f in src][:60]
+    docs += [b'<?xml version="1.1"?><a>\xc2\x85&#1;</a>', b'<!DOCTYPE a [<!ENTITY e "x"><!ATTLIST a k CDATA "d" id ID #IMPLIED>]><a id="i1">&e;</a>', b'<a><b></a>',
+             b'<a id="i1" xmlns:p="urn:p"><p:b/></a>', b'<r>&e;</r>', b'<!DOCTYPE r SYSTEM "x.dtd"><r/>', b'<?xml version="1.0" standalone="yes"?><!DOCTYPE r SYSTEM "x.dtd"><r/>']
+    n = 0
+    for i in range(len(docs)):
+        for j in (i + 1, i + 7 + worker):
+            a = docs[i]; b = docs[j % len(docs)]
+            if len(a) + len(b) > 3800: continue
+            open(os.path.join(dest, 's%03d' % n), 'wb').write(a + FSEP + b + bytes([(n + worker) % 64, n % 4, n % 6])); n += 1
 
 def replay(case, ctx):
+    if case.get('lane') == 'F':
+        ok, detail = fuzzlane.replay('fz_reuse', base64.b64decode(case['input_b64']))
+        return (True if ok is None else ok), detail
     ok, detail, ops = run_case(case, ctx.executor('xvexec'))
     return ok, detail
 
